@@ -3,9 +3,10 @@
    Codec/ChunkDetect_proofs.v.
    Bit order convention of the detection theorems: serial order = byte 0 first, least significant bit first
    within a byte (Codec/BitErr.v).  "Burst of at most 32 contiguous bits" is read in this order; every
-   byte-aligned window of at most 4 bytes is such a window in either bit order.  Unaligned windows of 26..32 bits
-   in the MSB-first reading span up to 40 serial positions and are NOT covered by C03_chunk_burst32_rejected
-   (they are still covered when at most 3 bits change, by C03_chunk_flip123_rejected). *)
+   byte-aligned window of at most 4 bytes is such a window in either bit order.  In the other reading (bits
+   numbered most significant first within bytes) an unaligned 32-bit window spans 40 serial positions, and the
+   claim is FALSE: C03_chunk_burst32_msb_first_refuted exhibits an accepted chunk and a 32-contiguous-bit
+   (MSB-first) change of its payload that is accepted too (replayed on the implementation: accepted). *)
 From AG Require Import Base.Prelude Base.Res Base.Bytes Codec.Crc32c Codec.CrcHD Codec.BitErr
   Codec.Chunk Codec.ChunkObs Codec.Chunk_proofs Codec.Crc32c_proofs Codec.ChunkDetect_proofs.
 
@@ -97,6 +98,17 @@ Proof.
   apply hamming_pos_lemma; auto.
 Qed.
 Print Assumptions C03_chunk_burst32_rejected.
+
+(* REFUTED under the MSB-first reading of "burst of up to 32 contiguous bits": there is an accepted chunk l and a
+   byte string l' of the same length, differing from l exactly inside bits 161..192 (MSB-first numbering: 32
+   contiguous bits of the payload), which is accepted as well, with a different payload.  The error polynomial
+   (bytes 62 95 e3 fd 80 xor-ed onto 5 consecutive payload bytes) is a multiple of the CRC-32C generator. *)
+Theorem C03_chunk_burst32_msb_first_refuted :
+  exists devices m l l' c c',
+    bytes l /\ bytes l' /\ chunk_decode devices m l = Ok c /\ length l' = length l /\ l' <> l /\
+    burst32_msb l l' /\ chunk_decode devices m l' = Ok c' /\ c_payload c' <> c_payload c.
+Proof. exact chunk_burst32_msb_first_refuted_lemma. Qed.
+Print Assumptions C03_chunk_burst32_msb_first_refuted.
 
 (* ---------- non-vacuity ---------- *)
 (* the check value of the CRC-32C catalogue entry pins polynomial, reflection and inversion *)
